@@ -119,6 +119,10 @@ func runR11_1(c *Ctx, r *R) {
 
 // classifyHandshakeGuard names the negotiation checks a dominating condition establishes.
 func classifyHandshakeGuard(cd Cond, protoLine string) []string {
+	return classifyHandshakeGuardD(cd, protoLine, 0)
+}
+
+func classifyHandshakeGuardD(cd Cond, protoLine string, depth int) []string {
 	cv, truth := cd.V, cd.Truth
 	if un, ok := cv.(*ssa.UnOp); ok && un.Op == token.NOT {
 		cv, truth = un.X, !truth
@@ -160,13 +164,71 @@ func classifyHandshakeGuard(cd Cond, protoLine string) []string {
 		if o := calleeObj(x); o != nil && objName(o) == "ConnectResponse.Ok" && truth {
 			out = append(out, "resp.Ok")
 		}
+		// a predicate helper of the package (requestSupportsVersion10(req)): its true result establishes what every
+		// one of its true-returns establishes
+		if callee := x.Call.StaticCallee(); callee != nil && callee.Blocks != nil && isBoolType(x.Type()) && truth && depth < 2 && callee.Pkg != nil && relPkg(callee.Pkg.Pkg.Path()) == "mpx" {
+			var common map[string]bool
+			for _, ret := range returnsOf(callee) {
+				if len(ret.Results) != 1 {
+					continue
+				}
+				rv := ret.Results[0]
+				if k, ok := rv.(*ssa.Const); ok && k.Value != nil && k.Value.String() == "false" {
+					continue
+				}
+				have := map[string]bool{}
+				for _, alt := range backPaths(ret.Block(), nil, 32) {
+					// guards that hold on this way of reaching the return; a guard counts only if on every way
+					altHave := map[string]bool{}
+					for _, pc := range alt {
+						for _, g := range classifyHandshakeGuardD(pc, protoLine, depth+1) {
+							altHave[g] = true
+						}
+					}
+					if len(have) == 0 {
+						have = altHave
+						if len(have) == 0 {
+							have = map[string]bool{"": true} // marker: some path establishes nothing
+						}
+					} else {
+						for g := range have {
+							if !altHave[g] {
+								delete(have, g)
+							}
+						}
+						if len(have) == 0 {
+							have = map[string]bool{"": true}
+						}
+					}
+				}
+				if k, ok := rv.(*ssa.Const); !ok || k.Value == nil {
+					for _, g := range classifyHandshakeGuardD(Cond{rv, true}, protoLine, depth+1) {
+						have[g] = true
+					}
+				}
+				if common == nil {
+					common = have
+				} else {
+					for g := range common {
+						if !have[g] {
+							delete(common, g)
+						}
+					}
+				}
+			}
+			for g := range common {
+				if g != "" {
+					out = append(out, g)
+				}
+			}
+		}
 	case *ssa.Phi:
 		// `ok` flag of the version loop: a bool phi with a true edge set under  v == Version10
 		if truth {
 			for i, e := range x.Edges {
 				if k, ok := e.(*ssa.Const); ok && k.Value != nil && k.Value.String() == "true" {
 					for _, pc := range pathConds(x.Block().Preds[i]) {
-						for _, g := range classifyHandshakeGuard(pc, protoLine) {
+						for _, g := range classifyHandshakeGuardD(pc, protoLine, depth) {
 							if g == "version" {
 								out = append(out, "version")
 							}
@@ -175,7 +237,7 @@ func classifyHandshakeGuard(cd Cond, protoLine string) []string {
 					// the edge itself may be the true edge of the comparison
 					pred := x.Block().Preds[i]
 					if c := ifCond(pred); c != nil {
-						for _, g := range classifyHandshakeGuard(Cond{c, pred.Succs[0] == x.Block()}, protoLine) {
+						for _, g := range classifyHandshakeGuardD(Cond{c, pred.Succs[0] == x.Block()}, protoLine, depth) {
 							if g == "version" {
 								out = append(out, "version")
 							}
@@ -316,41 +378,121 @@ func runR11_4(c *Ctx, r *R) {
 	} else {
 		r.Bad(fnKey(f)+"/codes", f.Pos(), "dispatches %v, expected exactly %v", got, want)
 	}
-	// returns that are not calls to a receiveX method must be NonOK (default arm, nested batch)
-	n := 0
-	for _, ret := range returnsOf(f) {
-		if len(ret.Results) != 1 {
+	// The dispatch may be one function or several (top-level / inside-a-batch / single-message helpers): every
+	// receive* method of the connection that steers control by a frame code belongs to it. In each of them a return
+	// that is not the result of another receive* method must be NonOK (default arm, nested batch).
+	isCode := func(v ssa.Value) bool { return typeIs(v.Type(), pkgPath("proto/pmpx"), "Code") }
+	var dispatch []*ssa.Function
+	for _, g := range c.SrcFuncs("mpx") {
+		if g.Parent() != nil || g.Signature.Recv() == nil || !strings.HasPrefix(g.Name(), "receive") {
 			continue
 		}
-		if call, ok := ret.Results[0].(*ssa.Call); ok {
-			if o := calleeObj(call); o != nil && strings.HasPrefix(o.Name(), "receive") {
-				continue
-			}
+		if n := namedOf(g.Signature.Recv().Type()); n == nil || n.Obj().Name() != "conn" {
+			continue
 		}
-		n++
-		key := fmt.Sprintf("%s/reject#%d", fnKey(f), n)
-		cl := sa.classOf(ret.Results[0], ret.Block(), false, 0)
-		if cl == SNonOK {
-			r.OK(key, ret.Pos(), "unexpected / nested-batch message is a connection error")
-		} else {
-			r.Bad(key, ret.Pos(), "an unexpected message code or a nested batch is answered with a status that %s instead of a connection error", cl)
+		own := map[int64]bool{}
+		typeSwitchLabelsInto(g, isCode, own, 3, map[*ssa.Function]bool{}) // depth 3: this function only
+		if len(own) > 0 {
+			dispatch = append(dispatch, g)
 		}
 	}
-	// the nested-batch rejection: the Batch arm must test insideBatch before recursing
-	guard := false
-	for _, call := range callsIn(f, false) {
-		if o := calleeObj(call); o != nil && o.Name() == "receiveBatch" {
-			for _, cd := range pathConds(call.Block()) {
-				if pr, ok := cd.V.(*ssa.Parameter); ok && pr.Name() == "insideBatch" && !cd.Truth {
-					guard = true
+	for _, g := range dispatch {
+		n := 0
+		for _, ret := range returnsOf(g) {
+			if len(ret.Results) != 1 {
+				continue
+			}
+			if call, ok := ret.Results[0].(*ssa.Call); ok {
+				if o := calleeObj(call); o != nil && strings.HasPrefix(o.Name(), "receive") {
+					continue
+				}
+			}
+			n++
+			key := fmt.Sprintf("%s/reject#%d", fnKey(g), n)
+			cl := sa.classOf(ret.Results[0], ret.Block(), false, 0)
+			if cl == SNonOK {
+				r.OK(key, ret.Pos(), "unexpected / nested-batch message is a connection error")
+			} else {
+				r.Bad(key, ret.Pos(), "an unexpected message code or a nested batch is answered with a status that %s instead of a connection error", cl)
+			}
+		}
+	}
+	// the nested-batch rejection: nothing receiveBatch calls for the messages inside a batch can reach receiveBatch
+	// again. Calls are followed inside the package with constant bool arguments propagated into the callee's
+	// branches (receiveMessage(m, true) cannot take the `!insideBatch` arm).
+	if rb := r.Need("mpx", "conn.receiveBatch"); rb != nil {
+		// functions of the package from which receiveBatch is reachable at all (plain static call graph)
+		can := map[*ssa.Function]bool{rb: true}
+		for changed := true; changed; {
+			changed = false
+			for _, g := range c.SrcFuncs("mpx") {
+				if can[g] {
+					continue
+				}
+				for _, call := range callsIn(g, false) {
+					if cal := call.Common().StaticCallee(); cal != nil && can[cal] {
+						can[g] = true
+						changed = true
+						break
+					}
 				}
 			}
 		}
-	}
-	if guard {
-		r.OK(fnKey(f)+"/nested-batch", f.Pos(), "receiveBatch reached only when not already inside a batch")
-	} else {
-		r.Bad(fnKey(f)+"/nested-batch", f.Pos(), "a batch inside a batch is dispatched again (unbounded recursion on hostile input)")
+		var reaches func(fn *ssa.Function, env map[*ssa.Parameter]bool, depth int, seen map[string]bool) bool
+		reaches = func(fn *ssa.Function, env map[*ssa.Parameter]bool, depth int, seen map[string]bool) bool {
+			if depth > 8 {
+				return true // give up: assume reachable
+			}
+			sig := fnKey(fn)
+			for _, p := range fn.Params {
+				if v, ok := env[p]; ok {
+					sig += fmt.Sprintf("|%s=%v", p.Name(), v)
+				}
+			}
+			if seen[sig] {
+				return false
+			}
+			seen[sig] = true
+			for _, call := range callsIn(fn, false) {
+				feasible := true
+				for _, cd := range pathConds(call.Block()) {
+					v, truth := cd.V, cd.Truth
+					if un, ok := v.(*ssa.UnOp); ok && un.Op == token.NOT {
+						v, truth = un.X, !truth
+					}
+					if p, ok := v.(*ssa.Parameter); ok {
+						if val, known := env[p]; known && val != truth {
+							feasible = false
+						}
+					}
+				}
+				if !feasible {
+					continue
+				}
+				callee := call.Common().StaticCallee()
+				if callee == nil || callee.Blocks == nil || callee.Pkg != fn.Pkg || !can[callee] {
+					continue
+				}
+				if callee == rb {
+					return true
+				}
+				env2 := map[*ssa.Parameter]bool{}
+				for i, a := range call.Common().Args {
+					if k, ok := a.(*ssa.Const); ok && k.Value != nil && isBoolType(k.Type()) && i < len(callee.Params) {
+						env2[callee.Params[i]] = k.Value.String() == "true"
+					}
+				}
+				if reaches(callee, env2, depth+1, seen) {
+					return true
+				}
+			}
+			return false
+		}
+		if reaches(rb, map[*ssa.Parameter]bool{}, 0, map[string]bool{}) {
+			r.Bad(fnKey(f)+"/nested-batch", f.Pos(), "a batch inside a batch is dispatched again (unbounded recursion on hostile input): receiveBatch can be reached from the handling of the messages inside a batch")
+		} else {
+			r.OK(fnKey(f)+"/nested-batch", f.Pos(), "receiveBatch is not reachable from the handling of the messages inside a batch")
+		}
 	}
 	// duplicate open is NonOK
 	if g := r.Need("mpx", "conn.receiveOpen"); g != nil {
